@@ -520,9 +520,26 @@ def annotate_closures(body, closures, unit):
         found = find_closures(body)
         st, pe, bs, be, params = found[k]
         c = closures[k]
-        if norm_ws(params) != norm_ws(c['params']):
-            raise LostAnchor('closure %d of %s has parameters |%s|, contract written for |%s|' % (k + 1, unit, params, c['params']))
         src = body[bs:be]
+        if norm_ws(params) != norm_ws(c['params']):
+            # R30b: the same parameter pattern with other identifiers is alpha-renamed to the sidecar's names (capture-free: a new name must not occur in the closure already)
+            ids_src = re.findall(r'[A-Za-z_]\w*', params)
+            ids_dst = re.findall(r'[A-Za-z_]\w*', c['params'])
+            shape = lambda t: re.sub(r'[A-Za-z_]\w*', '#', norm_ws(t))
+            KEEP = ('_', 'mut', 'ref')
+            if shape(params) != shape(c['params']) or len(ids_src) != len(ids_dst) or any((a in KEEP or b in KEEP) and a != b for a, b in zip(ids_src, ids_dst)) \
+                    or any(a[:1].isupper() or b[:1].isupper() for a, b in zip(ids_src, ids_dst) if a != b):
+                raise LostAnchor('closure %d of %s has parameters |%s|, contract written for |%s|' % (k + 1, unit, params, c['params']))
+            ren = [(a, b) for a, b in zip(ids_src, ids_dst) if a != b]
+            for a, b in ren:
+                if re.search(r'(?<![\w.])%s\b' % re.escape(b), src) and b not in ids_src:
+                    raise LostAnchor('closure %d of %s: cannot rename parameter %s to %s (name in use)' % (k + 1, unit, a, b))
+            tmp = src
+            for n, (a, b) in enumerate(ren):
+                tmp = re.sub(r'(?<![\w.])%s\b(?!\s*:(?!:))' % re.escape(a), '\x00%d\x00' % n, tmp)
+            for n, (a, b) in enumerate(ren):
+                tmp = tmp.replace('\x00%d\x00' % n, b)
+            src = tmp
         inner = src if src.lstrip().startswith('{') else '{ ' + src.strip() + ' }'
         if c.get('bind'):
             # R11b: closure parameter PATTERNS (tuples, `_`) are not accepted by Verus: the typed parameter gets a name and the pattern is bound by a `let` in front of the body
@@ -535,7 +552,7 @@ def annotate_closures(body, closures, unit):
 # --------------------------------------------------------------------------
 # R31: iterator pipelines instantiated at Vec
 # --------------------------------------------------------------------------
-PIPE_ADAPTERS = ('iter', 'into_iter', 'map', 'chain', 'filter')
+PIPE_ADAPTERS = ('iter', 'into_iter', 'map', 'chain', 'filter', 'cloned', 'copied', 'flat_map', 'collect')
 
 
 def _top_calls(e):
@@ -564,23 +581,26 @@ def _top_calls(e):
     k = len(cuts) - 1
     if e[cuts[k][3]:].strip():
         return e.strip(), []
-    while k > 0 and e[cuts[k - 1][3]:cuts[k][0]].strip() == '':
+    if cuts[k][1] not in PIPE_ADAPTERS:
+        return e.strip(), []
+    while k > 0 and e[cuts[k - 1][3]:cuts[k][0]].strip() == '' and cuts[k - 1][1] in PIPE_ADAPTERS:
         k -= 1
     return e[:cuts[k][0]].strip(), [(n, a) for (_, n, a, _) in cuts[k:]]
 
 
-def pipeline(e, hit=None, ctr=None):
+def pipeline(e, hit=None, ctr=None, opts=None):
     """R31: an iterator pipeline (`.iter()`, `(a..b).map(C)`, `.map(C)`, `.chain(P)`, `.filter(C)`, `std::iter::once(x)`, `std::iter::empty()`, `Box::new(P)`) is instantiated at Vec:
     each adapter becomes one `let __pK = helper(..);` with the adapter's std contract (prelude/std_helpers.rs), in evaluation order; the closures are the source text.
     Anything else is outside the rule (LostAnchor).  Returns a block expression."""
     ctr = ctr if ctr is not None else [0]
-    stmts, res = _pipe(e, hit, ctr)
+    stmts, res = _pipe(e, hit, ctr, opts)
     if not stmts:
         return res
     return '{ ' + ' '.join(stmts) + ' ' + res + ' }'
 
 
-def _pipe(e, hit, ctr):
+def _pipe(e, hit, ctr, opts=None):
+    opts = opts or {}
     def h():
         if hit:
             hit('R31')
@@ -594,7 +614,7 @@ def _pipe(e, hit, ctr):
     e = e.strip().rstrip(',').strip()
     m = re.match(r'^Box::new\s*\(', e)
     if m and match_close(e, m.end() - 1, '(', ')') == len(e) - 1:
-        return _pipe(e[m.end():-1], hit, ctr)
+        return _pipe(e[m.end():-1], hit, ctr, opts)
     stmts = []
     m = re.match(r'^(?:std::iter::|iter::)?once\s*\(', e)
     if m and match_close(e, m.end() - 1, '(', ')') == len(e) - 1:
@@ -615,7 +635,21 @@ def _pipe(e, hit, ctr):
                 raise LostAnchor('iter() with arguments')
             cur = bind('vec_refs(&%s)' % cur, stmts)
         elif name == 'into_iter':
-            cur = bind('%s.into_iter()' % cur, stmts)       # the typed unit (R22: returns Vec)
+            # the typed unit (R22: returns Vec), or the helper the sidecar names for a std collection (e.g. BTreeSet -> btreeset_into_vec)
+            cur = bind(('%s(%s)' % (opts['into_iter'], cur)) if opts.get('into_iter') else ('%s.into_iter()' % cur), stmts)
+        elif name in ('cloned', 'copied'):
+            cur = bind('vec_cloned(%s)' % cur, stmts)
+        elif name == 'flat_map':
+            # the closure returns an iterator: its body is a pipeline too
+            cm = re.match(r'^\|([^|]*)\|\s*(.*)$', clo, re.S)
+            if not cm:
+                raise LostAnchor('flat_map argument is not a closure')
+            st3, r3 = _pipe(cm.group(2), hit, ctr, opts)
+            cur = bind('vec_flat_map(%s, |%s| { %s %s })' % (cur, cm.group(1), ' '.join(st3), r3), stmts)
+        elif name == 'collect':
+            if not opts.get('collect'):
+                raise LostAnchor('collect() without a target named by the sidecar')
+            cur = bind('%s(%s)' % (opts['collect'], cur), stmts)
         elif name == 'map':
             rm = re.match(r'^\(\s*(.+?)\s*\.\.\s*(.+?)\s*\)$', cur) if first else None
             if rm:
@@ -623,7 +657,7 @@ def _pipe(e, hit, ctr):
             else:
                 cur = bind('vec_map_collect(%s, %s)' % (cur, clo), stmts)
         elif name == 'chain':
-            st2, r2 = _pipe(args, hit, ctr)
+            st2, r2 = _pipe(args, hit, ctr, opts)
             stmts.extend(st2)
             cur = bind('vec_chain(%s, %s)' % (cur, r2), stmts)
         elif name == 'filter':
@@ -640,7 +674,9 @@ class Unit:
     """One function of /repo under contract."""
 
     def __init__(self, name, file, fn, header, impl=None, sig=None, wrap=('', ''), loops=(), subs=(), proofs=(),
-                 pre='', anyhow=True, fn_rx=None, serves=(), note='', rules=True, post_subs=(), text=None, subs_all=(), closures=None, rsubs=(), mut_self=False, strlit=False, renames=(), pipes=None):
+                 pre='', anyhow=True, fn_rx=None, serves=(), note='', rules=True, post_subs=(), text=None, subs_all=(), closures=None, rsubs=(), mut_self=False, strlit=False, renames=(), pipes=None, pipe_opts=None, pre_rsubs=()):
+        self.pre_rsubs = list(pre_rsubs)   # (regex, replacement, expected count) applied BEFORE the pipeline rule R31
+        self.pipe_opts = pipe_opts or {}   # R31 options: collect=<helper for the final .collect()>, into_iter=<helper for .into_iter() on a std collection>
         self.pipes = pipes        # R31: None = off; else list of regexes (one group each) whose group is an iterator pipeline, in addition to every `Box::new(<pipeline>)`
         self.renames = list(renames)   # R30: (regex with one group, canonical name): alpha-rename a local to the name the sidecar uses
         self.name = name          # display name, e.g. "Bound::pow"
@@ -674,9 +710,28 @@ class Unit:
                      src_sha=hashlib.sha256(t[a:j + 1].encode()).hexdigest()[:16])
         else:
             f = get_fn(self.file, self.impl, self.fn_rx)
-        if self.sig is not None and norm_ws(self.sig) != f['sig']:
-            raise LostAnchor('signature of %s changed: %r (contract written for %r)' % (self.name, f['sig'], norm_ws(self.sig)))
         body = f['body']
+        if self.sig is not None and norm_ws(self.sig) != f['sig']:
+            # R30c: a signature that differs from the expected one only in the NAMES of its parameters: the parameters are alpha-renamed in the body to the names the contract uses
+            # (capture-free: a new name must not occur in the body already)
+            prx = r'(?<![\w:])(?:mut\s+)?([a-z_]\w*)\s*:(?!:)'
+            want, got = norm_ws(self.sig), f['sig']
+            a_names, b_names = re.findall(prx, got), re.findall(prx, want)
+            mask = lambda t: re.sub(prx, lambda m: m.group(0).replace(m.group(1), '#'), t)
+            if len(a_names) != len(b_names) or mask(got) != mask(want):
+                raise LostAnchor('signature of %s changed: %r (contract written for %r)' % (self.name, f['sig'], norm_ws(self.sig)))
+            ren = [(a, b) for a, b in zip(a_names, b_names) if a != b]
+            for a, b in ren:
+                if re.search(r'(?<![\w.])%s\b' % re.escape(b), body) and b not in a_names:
+                    raise LostAnchor('signature of %s changed: parameter %s cannot be renamed to %s (name in use)' % (self.name, a, b))
+                if re.search(r'\{[^{}()]*(?<![\w.])%s\s*[,}]' % re.escape(a), body):
+                    # possibly a field-init shorthand `S { a, .. }`: the name is a field label there, not only a variable
+                    raise LostAnchor('signature of %s changed: parameter %s may be used as a field-init shorthand' % (self.name, a))
+            for n, (a, b) in enumerate(ren):
+                body = re.sub(r'(?<![\w.])%s\b(?!\s*:(?!:))' % re.escape(a), '\x00%d\x00' % n, body)
+            for n, (a, b) in enumerate(ren):
+                body = body.replace('\x00%d\x00' % n, b)
+            rules.hit('R30', len(ren))
         if self.apply_rules:
             body = rules.apply(body, anyhow=self.anyhow)
         for rx, canon in self.renames:
@@ -702,6 +757,10 @@ class Unit:
                 raise LostAnchor('%s no longer takes `mut self`' % self.name)
             body = re.sub(r'\bself\b', 'this', body)
             body = '{ let mut this = self;' + body[1:]
+        for rx, rep, cnt in self.pre_rsubs:
+            body, n = re.subn(rx, rep, body)
+            if cnt is not None and n != cnt:
+                raise LostAnchor('pattern %r occurs %d times in %s (contract written for %d)' % (rx, n, self.name, cnt))
         if self.pipes is not None:
             # R31: iterator pipelines instantiated at Vec
             pctr = [0]
@@ -709,13 +768,13 @@ class Unit:
                 ms = list(re.finditer(rx, body))
                 if len(ms) != 1:
                     raise LostAnchor('pipeline anchor %r matched %d times in %s' % (rx, len(ms), self.name))
-                body = body[:ms[0].start(1)] + pipeline(ms[0].group(1), rules.hit, pctr) + body[ms[0].end(1):]
+                body = body[:ms[0].start(1)] + pipeline(ms[0].group(1), rules.hit, pctr, self.pipe_opts) + body[ms[0].end(1):]
             while True:
                 m = re.search(r'Box::new\s*\(', body)
                 if not m:
                     break
                 cl = match_close(body, m.end() - 1, '(', ')')
-                body = body[:m.start()] + pipeline(body[m.end():cl], rules.hit, pctr) + body[cl + 1:]
+                body = body[:m.start()] + pipeline(body[m.end():cl], rules.hit, pctr, self.pipe_opts) + body[cl + 1:]
         for a, b in self.subs:
             if body.count(a) != 1:
                 raise LostAnchor('substitution source %r occurs %d times in %s' % (a, body.count(a), self.name))
